@@ -124,6 +124,13 @@ def gen_case(rng):
     return k, []
 
 
+def use_stream(rng, driver, n):
+    """`!typ.use` lines only (also part of C01: parse-then-print keeps the type at which a result is used)"""
+    cases = [gen_case(rng) for _ in range(n)]
+    spec = C.run_lines([driver], ["typ.spec %s %s" % (k, " ".join(ts)) for k, ts in cases], shards=8)
+    return [("!typ.use %s %s" % (k, " ".join(ts))).rstrip() + " " + sp for (k, ts), sp in zip(cases, spec) if sp not in ("illtyped", "unknown-op")]
+
+
 def gen(tier, rng, harness, driver):
     n = 700 if tier == "quick" else 60000
     cases = [gen_case(rng) for _ in range(n)]
@@ -135,6 +142,7 @@ def gen(tier, rng, harness, driver):
         lines.append(("typ.asm %s %s" % (k, args)).rstrip())
         if sp not in ("illtyped", "unknown-op"):
             lines.append(("!typ.ok %s %s" % (k, args)).rstrip() + " " + sp)
+            lines.append(("!typ.use %s %s" % (k, args)).rstrip() + " " + sp)
     return lines
 
 
